@@ -86,3 +86,21 @@ for i in ("C16","C17"):
     C[i]["level_claimed"]["text"] += " Decoding is checked to be a function of the text alone: damaged copies of each encoding are fed to the same decoder between two decodings of the intact text; values are also serialized into a writer that fails after a generated number of bytes and must serialize identically afterwards; snapshots may list the same shared order allocation twice."
 C["C18"]["level_claimed"]["text"] += " Edits include swapping two whole fields and moving blocks."
 C["C19"]["level_claimed"]["text"] += " Rendering the queue (Debug, text, JSON, JSON into a failing writer, Value) is a generated operation that must change nothing."
+# ---- texts updated after round 5 (DESIGN 11.9)
+ENGINES += [
+ {"name":"P unhooked-build replay","path":"plain/ (crate plvplain, depends on pricelevel WITHOUT the verif feature) + harness/src/checks/hist.rs (export_plain)","serves_properties":["C01","C02","C03","C06","C07"],"kind_free_text":"generated histories replayed call by call on the library built without the instrumentation (results and aggregates must equal the instrumented build's, every call must return) and a real-thread stress with conservation / drain oracles on that build"},
+]
+for i in ("C01","C02","C06","C07"):
+    C[i]["engine"] += " + P unhooked-build replay"
+    C[i]["level_claimed"]["text"] += " Generated histories are also replayed call by call on the library built WITHOUT the verif feature (real dashmap and crossbeam queue): every call must return and every match / update result and the aggregates after every call must equal what the instrumented build gave."
+    C[i]["technique"] += " + differential replay instrumented build vs unhooked build"
+C["C03"]["engine"] += " + P unhooked-build replay"
+C["C03"]["level_claimed"]["text"] += " A real-thread stress on the library built WITHOUT the verif feature (8 threads x 400 add / match / cancel / snapshot operations per round) checks that all threads finish, aggregates equal the listing sums, every unit added is executed, handed back or resting, and a draining match empties the level."
+C["C03"]["technique"] += " + real-thread stress on the unhooked build"
+C["C06"]["level_note"] += " On the unhooked build 'did not return' is a wall-clock observation (120 s, confirmed in a fresh process with 300 s; one slow attempt is reported as inconclusive, exit 2)."
+C["C19"]["level_claimed"]["text"] += " The known finding KF-C19-1 is delimited exactly by tracking the queue's ticket FIFO; re-pushing the very allocation that remove(id) handed back is a generated operation."
+C["C15"]["level_claimed"]["text"] += " Statistics are read alternately through a handle taken when the level was created and through a fresh one."
+C["C14"]["level_claimed"]["text"] += " Restored generators also come from the sequence form and from reordered-key / reader forms of their serde encoding."
+C["C18"]["level_claimed"]["text"] += " Byte-length-preserving edits (a character widened to a multi-byte one, following characters deleted to compensate)."
+C["C09"]["level_claimed"]["text"] += " Unwrapped texts (an edited snapshot body alone, with half an envelope, or spliced into the envelope)."
+C["C17"]["level_claimed"]["text"] += " Packages carrying arbitrary checksum text (quotes, backslashes, control characters, non-ASCII) and other versions must survive to_json / from_json and serde unchanged."
